@@ -366,6 +366,14 @@ func globalInitNonNil(g *ssa.Global) bool {
 			if call, ok := an.Unwrap(st.Val).(*ssa.Call); ok && errsNewLike(call.Common()) {
 				good = true
 			}
+			// a value of a concrete (non-pointer) error type put into the interface: never nil
+			if mi, ok := st.Val.(*ssa.MakeInterface); ok {
+				if _, isPtr := mi.X.Type().Underlying().(*types.Pointer); !isPtr {
+					good = true
+				} else if _, isAlloc := mi.X.(*ssa.Alloc); isAlloc {
+					good = true
+				}
+			}
 		})
 	}
 	// stores outside init
